@@ -163,19 +163,21 @@ def registerDescriptor (c : Coll) (d0 : Desc) : Except Err Coll :=
     let d' := { d with key := .idx ((c.reg.grp d.gkey).length + 1) }
     .ok { c with reg := (c.reg.setGrp d.gkey (c.reg.grp d.gkey ++ [d'])).push d', nextId := c.nextId + 1 }
 
+/-- the second half of an iteration of `rollbackTo` (collection.go:831-834) -/
+def rollbackSvc (r : Reg) (d : Desc) : Reg :=
+  match r.svc d.ident with
+  | some x => if x.id = d.id then r.delSvc d.ident else r
+  | none => r
+
 /-- one iteration of the loop in `rollbackTo` (collection.go:818-835) -/
 def rollbackOne (r : Reg) (d : Desc) : Reg :=
   let members := r.grp d.gkey
-  let viaServices :=
-    match r.svc d.ident with
-    | some x => if x.id = d.id then r.delSvc d.ident else r
-    | none => r
   match members.getLast? with
   | some m =>
     if m.id = d.id then
       if members.length = 1 then r.delGrp d.gkey else r.setGrp d.gkey members.dropLast
-    else viaServices
-  | none => viaServices
+    else rollbackSvc r d
+  | none => rollbackSvc r d
 
 /-- `rollbackTo` (collection.go:817-839): newest first, then truncate the list -/
 def rollbackTo (r : Reg) (mark : Nat) : Reg :=
@@ -279,6 +281,13 @@ def addLocked (c : Coll) (r : Req) (key0 : Key) : Coll × Option Err :=
       | .ok c' => (c', none)
       | .error e => (c, some e)
 
+/-- a void constructor draws the next `"v<n>"` key (descriptor.go:168-173) -/
+def Req.drawVoid (r : Req) (c : Coll) : Coll := if r.void then { c with nextVoid := c.nextVoid + 1 } else c
+
+/-- `descriptor.Key` after `newDescriptorWithAnalyzer`: the name option, else the void key, else nil -/
+def Req.key0 (r : Req) (c1 : Coll) : Key :=
+  if r.name ≠ 0 then .name r.name else if r.void then .void c1.nextVoid else .nil
+
 /-- the checks made before the lock is taken (collection.go:495-528, descriptor.go:74-222,255-305).
 Returns the collection (a void constructor draws a key even when the call is rejected afterwards),
 and either the error or the descriptor's key. -/
@@ -287,8 +296,8 @@ def preChecks (c : Coll) (r : Req) : Coll × Except Err Key :=
   if r.optionsInvalid then (c, .error (eRegistration none "create descriptor" (eValidation none eText))) else
   if r.nilPtr then (c, .error (eRegistration none "create descriptor" (eValidation none (.sentinel .constructorNil)))) else
   if r.nilFunc then (c, .error (eRegistration none "create descriptor" (.typed (.reflection "analyze") eText))) else
-  let c1 := if r.void then { c with nextVoid := c.nextVoid + 1 } else c
-  let key0 : Key := if r.name ≠ 0 then .name r.name else if r.void then .void c1.nextVoid else .nil
+  let c1 := r.drawVoid c
+  let key0 := r.key0 c1
   if (key0 ≠ .nil ∧ r.group ≠ 0) ∨ r.valBad then
     (c1, .error (eRegistration (some r.primary) "validate descriptor" (eValidation (some r.primary) eText)))
   else if reserved r.primary then (c1, .error (eValidation (some r.primary) eText))
